@@ -231,7 +231,7 @@ func parseHeaders(h *protocol.RequestHeader, buf []byte) (int, error) {
 					continue
 				}
 				if utils.CaseInsensitiveCompare(s.Key, bytestr.StrConnection) {
-					if bytes.Equal(s.Value, bytestr.StrClose) {
+					if utils.CaseInsensitiveCompare(s.Value, bytestr.StrClose) {
 						h.SetConnectionClose(true)
 					} else {
 						h.SetConnectionClose(false)
